@@ -20,7 +20,8 @@ DESIGN_REF = 'DESIGN.md section 3 C02'
 LEVEL = 'exploration'
 RULE = ('Cases: (circuit, m in {4,8}, options, batch size, vector seed) from the seeded generator of C01 plus the all-primitives circuit with every '
         'input combination as a lane. Non-trivial iff the stimulus contains >= 1 unknown/unassigned value and the circuit evaluates >= 1 compound '
-        'primitive (AO/OA/AOI/OAI/MUX). Distinct = digest of (netlist text, m, options, batch size, vector seed).')
+        'primitive (AO/OA/AOI/OAI/MUX). Distinct = digest of (netlist text, m, options, batch size, vector seed).'
+        " Two large cases per shard (200-450 gates, 129-520 patterns); a re-used simulator's earlier assignment shares a random subset of bit planes with the new one.")
 ASSUMPTIONS = ["X and '-' are one class in comparisons", 'unconnected pins read constant 0',
                'completions are enumerated exhaustively up to 6 unknown sources per lane, else 64 random ones']
 REACH = {'logic_sim.m4': ('logic_sim.py', 109, 184), 'logic_sim.m8': ('logic_sim.py', 184, 260), 'logic.bp_ops': ('logic.py', 283, 388)}
